@@ -1,7 +1,7 @@
 # run specification for C09 (loaded by checks_config.py)
 CHECK = {
  'level': 'exploration',
- 'rule': '41 targets (decoders NewBlock/NewBlockHeader/NewTransaction/NewBlockAsset/NewEvent, Block/Transaction.Validate on both decoding paths, '
+ 'rule': '42 targets (decoders NewBlock/NewBlockHeader/NewTransaction/NewBlockAsset/NewEvent, Block/Transaction.Validate on both decoding paths, '
          'EventPostSingleCommits.DecodeStrict, p2p Request/response/Message envelopes, gossip wrapper around the three topic validators, '
          'Executer.blockValidator/singleCommitValidator/verifyAggregateCommit on a 24-block 10-validator node, txpool validator and RPC handler, the '
          'three sync RPC handlers on a started connection, the requester-side decoders of the three sync RPCs (pure and end to end against a scripted '
@@ -16,15 +16,41 @@ CHECK = {
          '1-6 stacked random mutations, random short strings, 64 KiB+ runs, 2000-deep nestings, 20000 repeated empty elements; native fuzz targets run '
          'their seed corpus. Oracle: no panic; <= 2 s per call (reproduced 3x); bytes allocated <= 1 MiB + 256 x input length (1024 x for the SMT '
          'verifier); gossip validators never Accept what does not decode, singleCommitValidator never Accepts; Downloader stops against a peer that '
-         'never serves the advertised tip. Non-trivial = derived from a valid message/argument set by <= 3 mutations, or passing the target\'s first '
-         'decoding step; distinct by digest of (target, arguments)',
+         'never serves the advertised tip. (4) ENVELOPE LEVEL OVER REAL CONNECTIONS (target p2p.wire): a victim node (real Executer, the RPC and gossip '
+         'handlers it registers, started p2p.Connection) in a child process receives from a second started Connection raw bytes on the request and the '
+         'response protocol stream: well-formed envelopes with every registered procedure name, 27 unregistered ones (unknown, empty, blank, case '
+         'variants of registered names, prefix/suffix/NUL variants, gossip topic names, non-UTF-8), names of 255 B..1 MiB (8 MiB thorough), request IDs '
+         'empty/1 byte/duplicate/unknown/64 KiB/non-UTF-8, data/error field absent/present/1 MiB, ~26 payloads per sync procedure from valid to what '
+         'the handler rejects (unknown ID, 31/33-byte IDs, empty/2000-element lists, undecodable, 1 MiB), an even sample of the structural '
+         'single-mutation neighbourhood of a valid request and a valid response envelope, forged/duplicated responses carrying the ID of a request the '
+         'victim has pending (before and after the honest answer, other/unknown/case-variant procedure name), rapid-composed envelopes (name/ID/payload/'
+         'error drawn, 0-2 structural mutations); gossip: valid p2p.Message envelopes published on postBlock/postSingleCommits/5 unknown topics with a '
+         'valid candidate block, a chain block, the genesis block, valid single commits, their structural mutants, literal garbage up to 2 MiB, a peer '
+         'announcing 41 topics. Oracle: the victim process stays alive (a panic in a libp2p stream-handler / pubsub goroutine kills it: its trace is the '
+         'evidence, the Case the replay); no goroutine stays inside onRequest/onResponse; after EVERY case the victim answers getLastBlock of a fresh honest '
+         'peer with its tip and gets its own request to that peer answered (3 fresh peers failing while an untouched control node answers, or the '
+         'victim\'s own RequestFrom not returning 20 s after its context expired = violation). Processing is proven per case from the victim\'s state: '
+         'undecodable / unregistered name -> sender IP at the ban threshold; registered name -> rate counter moved (banned-by-handler recorded); gossip -> a '
+         'fresh valid block published next by the same peer appears in EventNetworkBlockNew. (5) SYNC DOWNLOADS AGAINST HOSTILE WELL-FORMED PEERS: the '
+         'Downloader (driven as fast/block sync drive it) against 29 scripted getBlocksFromId responders whose answers all decode (only the requested '
+         'block - from genesis, mid-chain, after progress, twice, alternating with empty -, requested block then successors, same segment again, '
+         'descending / shuffled / duplicated, below the start, empty, one block per answer, endless valid-looking (fabricated, re-signed) blocks past the '
+         'announced tip, gaps, jump to the end, end height with another ID, start >= end) and rapid-drawn scripts (answers as offsets -2..+6 relative to '
+         'the requested block, honest prefixes, loops). Oracle = positive evidence of non-termination, never wait-then-pass: 20 consecutive requests for '
+         'the same ID, or more than span+25 requests for a range of span heights, or 45 s without request or end (stack attached); any ending (blocks or '
+         'error) passes. Non-trivial = derived from a valid message/argument set by <= 3 mutations, or passing the target\'s first '
+         'decoding step (wire cases: only if the effect at the victim was observed; downloads: only if the scripted peer was asked); distinct by digest '
+         'of (target, arguments)',
  'level_text': 'Every network-facing decoder, validator and verifier is called in-process with exhaustively enumerated and randomly stacked structural '
                'mutations of valid messages and with all short byte strings; a recovered panic, a call that does not return (watchdog with goroutine '
-               'dump), a reproducible overrun of the generous time/allocation envelopes, or an Accept for an undecodable gossip payload is a violation.',
+               'dump), a reproducible overrun of the generous time/allocation envelopes, or an Accept for an undecodable gossip payload is a violation. '
+               'The stream handlers and gossip validators additionally run in a real node (child process) fed over loopback connections with hostile '
+               'but well-formed envelopes (death of the node, a wedged handler or a node that no longer completes an honest exchange is a violation), '
+               'and the sync Downloader runs against scripted peers whose well-formed answers make no progress (the request pattern proves a loop).',
  'level_note': 'Envelopes are fixed and generous, not proved bounds; inputs > 64 KiB only sampled; decoders of the node\'s own storage and the JSON-RPC '
                'endpoint layer are not targeted; process-fatal errors are attributed with VERIF_C09_LOG=<file> (every case logged before it runs).',
  'technique': 'property-based robustness testing: exhaustive structure-aware mutation + exhaustive short inputs + rapid stacked mutations + native fuzz seed corpora',
- 'assumptions': ['fake deterministic application (node harness)', 'loopback networking for the RPC handler / requester targets',
+ 'assumptions': ['fake deterministic application (node harness)', 'loopback networking (127.0.0.0/8) for the RPC handler / requester / wire / downloader targets',
                  'hooks_proposed/C09.patch applied (verif_hooks_c09.go in pkg/p2p, pkg/txpool, pkg/consensus/sync)'],
  'quick': [
    {'pkg': 'c09', 'run': 'TestDecodeMutations|TestDecodeShortStrings|TestRegress|^Fuzz|TestReplayCase', 'timeout': 900},
@@ -40,8 +66,8 @@ CHECK = {
    {'pkg': 'c09', 'run': 'TestNodeMutations|TestNodeShortStrings|TestAggregateCommitEnumerated|TestSyncClientE2E|TestDownloaderTerminates', 'shards': 4, 'timeout': 2400},
    {'pkg': 'c09', 'run': 'TestCryptoEnumerated|TestProofsEnumerated', 'shards': 2, 'timeout': 2400},
    {'pkg': 'c09', 'run': 'TestRandomMutations|TestRandomBytes|TestStructuredRandom', 'checks': 600000, 'shards': 10, 'timeout': 2400},
-   {'pkg': 'c09', 'run': 'TestWireEnvelopes|TestWireRandom', 'checks': 2500, 'shards': 2, 'timeout': 2400},
-   {'pkg': 'c09', 'run': 'TestDownloaderHostilePeers|TestDownloaderRandomPeer', 'checks': 500, 'shards': 2, 'timeout': 2400},
+   {'pkg': 'c09', 'run': 'TestWireEnvelopes|TestWireRandom', 'checks': 6000, 'shards': 2, 'timeout': 2400},
+   {'pkg': 'c09', 'run': 'TestDownloaderHostilePeers|TestDownloaderRandomPeer', 'checks': 1500, 'shards': 2, 'timeout': 2400},
    # native coverage-guided campaigns (one at a time, all cores); a crasher becomes a VIOLATION with the input as replay file
    {'pkg': 'c09', 'fuzz': 'FuzzDecoders', 'fuzztime': '75s', 'timeout': 600},
    {'pkg': 'c09', 'fuzz': 'FuzzNewBlock', 'fuzztime': '45s', 'timeout': 600},
